@@ -298,7 +298,9 @@ def main(argv):
                 pv['message'] += ' || Kani mirror %s FAILED: %s' % (m0['name'], '; '.join(m0.get('failed', []))[:300])
                 violations.append(pv)
             else:
-                conclusive_ok = bool(ms) and all(m['status'] == 'SUCCESSFUL' for m in ms)
+                # only a COMPLETE mirror (loop free, full input domain) that holds can overrule a failed Verus obligation;
+                # a bounded mirror that holds within its bound says nothing about the inputs beyond it
+                conclusive_ok = bool(ms) and all(m['status'] == 'SUCCESSFUL' and m.get('mode') == 'complete' for m in ms)
                 ws = nx.witnesses_for(pv['unit'], pv['fn'], pv['label']) if not conclusive_ok else []
                 hit = []
                 if ws:
@@ -320,7 +322,7 @@ def main(argv):
                                      % (pv['label'][:120], pv['fn'], pv['ghost_lost']))
                 else:
                     if ms:
-                        pv['message'] += ' || Kani mirror(s) inconclusive: %s' % [(m['name'], m['status']) for m in ms]
+                        pv['message'] += ' || Kani mirror(s) not conclusive: %s' % [(m['name'], m['status'], m.get('mode'), m.get('bound')) for m in ms]
                     violations.append(pv)
         # (2) the property's own harnesses
         for hn in kh:
